@@ -63,5 +63,19 @@ class Tagged(Mapped):
         super().__init__(base, lambda x: (tag, x))
 
 
+class Strided:
+    def __init__(self, base, step, start=0):
+        self.base, self.step, self.start = base, step, start
+        self.n = max(0, (len(base) - start + step - 1) // step)
+
+    def __len__(self):
+        return self.n
+
+    def __getitem__(self, i):
+        if i < 0 or i >= self.n:
+            raise IndexError(i)
+        return self.base[self.start + i * self.step]
+
+
 def power(seq: Sequence, k: int):
     return Product(*([seq] * k))
